@@ -2,6 +2,7 @@
 Model of skrifa/src/outline/glyf/hint/math.rs and `dot14` of hint/projection.rs, in the
 overflow-checked profile (the suite's profile and the harness' strict profile): plain `+ - * /`
 and unary `-` on `i32`/`i64` trap on overflow (`none`), `as` casts truncate, `wrapping_*` wrap.
+State of the code: after /repo commit fafa2bb (`round`/`ceil`/`round_pad`/`mul_div_no_round` wrap).
 `mul`, `div`, `mul_div` delegate to font-types `Fixed` (Model/Fixed.lean).
 -/
 import FontVerif.Model.Fixed
@@ -17,14 +18,14 @@ def chk64 (x : Int) : Option Int :=
 
 /-- `floor(x) = x & !63`. -/
 def floor (x : Int) : Int := x - x % 64
-/-- `round(x) = floor(x + 32)`. -/
-def round (x : Int) : Option Int := (chk (x + 32)).map floor
-/-- `ceil(x) = floor(x + 63)`. -/
-def ceil (x : Int) : Option Int := (chk (x + 63)).map floor
-/-- `floor_pad(x, n) = x & !(n - 1)`. -/
+/-- `round(x) = floor(x.wrapping_add(32))`. -/
+def round (x : Int) : Int := floor (wrapI32 (x + 32))
+/-- `ceil(x) = floor(x.wrapping_add(63))`. -/
+def ceil (x : Int) : Int := floor (wrapI32 (x + 63))
+/-- `floor_pad(x, n) = x & !(n - 1)` (`n - 1` is a plain subtraction). -/
 def floorPad (x n : Int) : Option Int := (chk (n - 1)).map (fun m => landInt x (notInt m))
-/-- `round_pad(x, n) = floor_pad(x + n / 2, n)` (`n / 2` truncates, cannot overflow). -/
-def roundPad (x n : Int) : Option Int := (chk (x + Int.tdiv n 2)).bind (fun s => floorPad s n)
+/-- `round_pad(x, n) = floor_pad(x.wrapping_add(n / 2), n)` (`n / 2` truncates, cannot overflow). -/
+def roundPad (x n : Int) : Option Int := floorPad (wrapI32 (x + Int.tdiv n 2)) n
 
 /-- `mul(a, b) = (Fixed(a) * Fixed(b)).to_bits()`. -/
 def mul (a b : Int) : Int := Fixed.mul a b
@@ -33,16 +34,16 @@ def div (a b : Int) : Int := Fixed.div a b
 /-- `mul_div(a, b, c) = Fixed(a).mul_div(Fixed(b), Fixed(c))`. -/
 def mulDiv (a b c : Int) : Int := Fixed.mulDiv a b c
 
-/-- `mul_div_no_round`: `a = -a` / `b = -b` / `c = -c` on `i32` (trap at `i32::MIN`),
-`d = if c > 0 { (a as i64 * b as i64) / c as i64 } else { 0x7FFFFFFF }`,
-`if s < 0 { -(d as i32) } else { d as i32 }` (the negation traps when `d as i32 = i32::MIN`). -/
-def mulDivNoRound (a b c : Int) : Option Int :=
-  (if a < 0 then chk (-a) else some a).bind fun a' =>
-  (if b < 0 then chk (-b) else some b).bind fun b' =>
-  (if c < 0 then chk (-c) else some c).bind fun c' =>
+/-- `mul_div_no_round` (after the `fix:` commit fafa2bb): sign from the three operands,
+`a.unsigned_abs() as u64` …, `d = if c > 0 { (a * b) / c } else { 0x7FFFFFFF }` in `u64` (the product
+of two magnitudes ≤ 2^31 cannot overflow), `if s < 0 { (d as i32).wrapping_neg() } else { d as i32 }`. -/
+def mulDivNoRound (a b c : Int) : Int :=
   let neg := ((a < 0) != (b < 0)) != (c < 0)
-  let d := if c' > 0 then (a' * b') / c' else 2147483647
-  if neg then chk (-(wrapI32 d)) else some (wrapI32 d)
+  let ua := iabs a
+  let ub := iabs b
+  let uc := iabs c
+  let d := if uc > 0 then (ua * ub) / uc else 2147483647
+  if neg then wrapI32 (-(wrapI32 d)) else wrapI32 d
 
 /-- `mul14(a, b)`: `v = a as i64 * b as i64; v += 0x2000 + (v >> 63); (v >> 14) as i32`.
 No i64 overflow is possible for i32 operands (|v| ≤ 2^62). -/
